@@ -590,6 +590,99 @@ func main() {
 			}
 		}
 	}
+	// directed, the on-disk machine: (1) raft indexes are not always consecutive inside one Update batch (config changes and
+	// leader no-ops take indexes the machine never sees): the state, the hash and the applied index reported after a restart
+	// depend on the entries, not on how they were batched; (2) a snapshot install that fails half way (the stream breaks
+	// off) leaves the replica answering from the state it had
+	for round := 0; round < 6; round++ {
+		r := hx.Rng(*seed, 7000+round)
+		a, b := newMachine("disk").(*diskM), newMachine("disk").(*diskM)
+		idxs := []uint64{}
+		cmds := [][]byte{}
+		at := uint64(1)
+		n := 2 + r.Intn(5)
+		for i := 0; i < n; i++ {
+			idxs = append(idxs, at)
+			cmds = append(cmds, enc([]byte(fmt.Sprintf("k%d", r.Intn(4))), []byte(fmt.Sprintf("v%d", i))))
+			at += 1 + uint64(r.Intn(3)) // holes of 0..2 indexes
+		}
+		ops := []J{{"op": "update-at", "machine": "disk", "indexes": idxs}}
+		apply := func(m *diskM, from, to int) bool {
+			ents := []sm.Entry{}
+			for i := from; i < to; i++ {
+				ents = append(ents, sm.Entry{Index: idxs[i], Cmd: cmds[i]})
+			}
+			return guard(func() {
+				if _, err := m.s.Update(ents); err != nil {
+					panic(err)
+				}
+			})
+		}
+		cut := 1 + r.Intn(n-1)
+		if apply(a, 0, n) || apply(b, 0, cut) || apply(b, cut, n) {
+			run.Violate(hx.Violation{Property: "C15", Clause: "update_total", Signature: "update-crash-on-index-hole", Seq: -1, Ops: ops,
+				What: "disk: an Update batch whose entries do not have consecutive indexes crashed the machine"})
+			continue
+		}
+		run.Count("c15:index_holes_checked")
+		if a.hash() != b.hash() {
+			run.Violate(hx.Violation{Property: "C15", Clause: "hash_function_of_updates", Signature: "hash-depends-on-batching", Seq: -1, Ops: ops,
+				What: fmt.Sprintf("disk: the same %d entries (indexes %v) applied as one batch and as two batches cut at %d give different state hashes", n, idxs, cut)})
+		}
+		reopen := func(m *diskM) (uint64, bool) {
+			var ai uint64
+			p := guard(func() {
+				m.s.Close()
+				m.s = tests.NewDiskKVTest(m.c, m.n).(*tests.DiskKVTest)
+				m.s.SetTestFS(m.fs)
+				v, err := m.s.Open(nil)
+				if err != nil {
+					panic(err)
+				}
+				ai = v
+			})
+			return ai, p
+		}
+		ia, pa := reopen(a)
+		ib, pb := reopen(b)
+		if !pa && !pb && (ia != idxs[n-1] || ib != idxs[n-1]) {
+			run.Violate(hx.Violation{Property: "C15", Clause: "applied_index", Signature: "applied-index-after-restart", Seq: -1, Ops: ops,
+				What: fmt.Sprintf("disk: after applying entries up to index %d and a restart the machine reports applied index %d (one batch) / %d (two batches)", idxs[n-1], ia, ib)})
+		}
+		// (2) on machine a, which holds data now
+		want := map[string][]byte{}
+		for i := range cmds {
+			want[fmt.Sprintf("k%d", i%4)] = nil
+		}
+		keys := []string{"k0", "k1", "k2", "k3"}
+		before := map[string][]byte{}
+		for _, k := range keys {
+			before[k] = a.lookup([]byte(k))
+		}
+		h0 := a.hash()
+		snap := b.snapshot()
+		short := snap[:len(snap)-1-r.Intn(min(len(snap)-1, 40))]
+		var ierr error
+		crashed := guard(func() { ierr = a.s.RecoverFromSnapshot(bytes.NewReader(short), nil) })
+		if crashed || ierr == nil {
+			run.Count("c15:inconclusive_failed_install")
+			continue
+		}
+		run.Count("c15:failed_install_checked")
+		same := a.hash() == h0
+		for _, k := range keys {
+			var got []byte
+			if guard(func() { got = a.lookup([]byte(k)) }) || !bytes.Equal(got, before[k]) {
+				same = false
+			}
+		}
+		if !same {
+			run.Violate(hx.Violation{Property: "C15", Clause: "snapshot_install_atomic", Signature: "failed-install-changes-state", Seq: -1,
+				Ops:  append(ops, J{"op": "recover-from-truncated-snapshot", "bytes": len(short), "of": len(snap)}),
+				What: fmt.Sprintf("disk: installing a snapshot whose stream breaks off (%d of %d bytes) fails with %v, and the replica no longer answers from the state it had (lookups or hash changed)", len(short), len(snap), ierr)})
+		}
+		_ = want
+	}
 	// F-C15c: the JSON snapshot of the in-memory machines does not preserve strings that are not valid UTF-8
 	for _, kind := range []string{"mem", "conc"} {
 		a := newMachine(kind)
